@@ -41,6 +41,9 @@ var mainSrc string
 //go:embed tmpl/runner_shipped.go.txt
 var runnerShipped string
 
+//go:embed tmpl/fuzz_shipped_test.go.txt
+var FuzzShippedTemplate string
+
 // RawPackage is a prepared package (generated parser plus helper files) for BuildRaw.
 type RawPackage struct {
 	Name   string
@@ -168,8 +171,10 @@ type Lab struct {
 var labSeq int
 
 type Options struct {
-	Race bool
-	AllU bool // instantiate uint16/uint64/uint in v0 packages
+	// ExtraFiles are written to the root of the lab module (e.g. a fuzz test in package main).
+	ExtraFiles map[string][]byte
+	Race       bool
+	AllU       bool // instantiate uint16/uint64/uint in v0 packages
 }
 
 func goEnv(c *drv.Ctx, dir string) []string {
@@ -317,6 +322,9 @@ func (l *Lab) finish(c *drv.Ctx, opt Options, start time.Time) (*Lab, error) {
 		return nil, fmt.Errorf("linking the lab binary failed: %v\n%s", err, drvTail(string(out)))
 	}
 	l.Bin = filepath.Join(dir, "labbin")
+	for name, b := range opt.ExtraFiles {
+		must(os.WriteFile(filepath.Join(dir, name), b, 0o644))
+	}
 	// the build cache is no longer needed
 	_ = exec.Command("chmod", "-R", "u+w", filepath.Join(dir, ".gocache")).Run()
 	_ = os.RemoveAll(filepath.Join(dir, ".gocache"))
